@@ -17,6 +17,28 @@ CLAIMED = {
     },
 }
 
+CLAIMED.update({
+    "C12": {
+        "text": "Transfer discipline decided for every raw read / fill_buf call site of the workspace (sync and async): each site is "
+                "classified from the MIR as delegation, loop (with Interrupted retry), scan-in-loop or peek-1; a site that takes a "
+                "short read for the whole transfer or needs k>1 bytes of one fill_buf window is a violation. Also the EOF-vs-partial "
+                "guard of the read-N-or-EOF helpers and LF/CR stripping of the line readers. Necessary conditions only: content "
+                "equality under every chunking is not decided.",
+        "note": "trusts std/tokio read_exact/read_until/BufReader contracts; known finding F6 (noodles-util autodetection) listed by exact key",
+        "technique": "static analysis: call-site classification by natural loops, enclosing trait method and forward data flow of the returned slice (MIR)",
+        "design_ref": "§5 C12",
+    },
+    "C14": {
+        "text": "Error discipline decided workspace-wide on MIR: every discarded Result (let _ / .ok() / drop / unused) and every io::Result "
+                "match whose Err arm reaches a success exit must be in a confirmed table; no raw write outside delegation or a zero-checked "
+                "advance loop; finish/try_finish/shutdown/Drop of every writer pass the flush of staged data and the format terminator; "
+                "MT writer joins and propagates. Necessary conditions: an error can only be hidden through one of these shapes.",
+        "note": "trusts write_all semantics; known finding F10 (bam alignment Write::finish no-op) listed by exact key",
+        "technique": "static analysis: def-use discard detection, Err-edge reachability, must-pass-through with wrapper summaries (MIR)",
+        "design_ref": "§5 C14",
+    },
+})
+
 NOT_APPLICABLE = {
     "C08": "every clause is numeric (rANS/arith/fqzcomp state arithmetic, ITF8/LTF8 bit arithmetic): correct and off-by-one "
            "implementations have the same code shape, so no sound static rule short of a solver/proof decides it; the "
